@@ -13,14 +13,16 @@ STORE_FAMILIES = {
     "C07": ["pos", "buf", "bufedge", "fleet", "slot", "cbelt"],
     "C09": ["bufedge", "fleet"],                         # the probe of the edge a non-blocking node decides on (can_put exact)
     "C10": ["pos", "buf", "bufedge", "fleet", "slot", "cbelt"], "C11": ["bufedge", "buf", "fleet"], "C12": ["slot", "cbelt"], "C13": ["slot", "cbelt"], "C14": ["fleet"],
-    "C18": ["pos", "bufedge", "fleet", "slot", "cbelt"], "C19": ["pos", "buf"],
+    "C18": ["pos", "bufedge", "fleet", "slot", "cbelt"],
+    "C19": ["pos", "buf", "bufedge", "fleet", "slot", "cbelt"],      # every store in lock-step with a deterministic model: an order that depends on id() or hashes diverges
     "C20": ["pos", "buf", "bufedge", "prq", "fleet", "slot", "cbelt"],
 }
 # judge property ids that decide each property at store level
 JUDGE_PROPS = {p: [p] for p in STORE_FAMILIES}
 JUDGE_PROPS["C11"] = ["C11", "C04"]
+JUDGE_PROPS["C14"] = ["C14", "C06"]     # "... become available together and in loading order": the fleet store's retrieval discipline is part of C14
 JUDGE_PROPS["C03"] = ["C02"]       # an edge that loses, duplicates or invents an item breaks the factory-wide identity
-JUDGE_PROPS["C10"] = ["C04"]       # store side of "never stranded" = no lost wake-up   # "retrievable from t+d onwards" is judged by the wake-up rule on timed stores
+JUDGE_PROPS["C10"] = ["C04", "C10"]       # store side of "never stranded" = no lost wake-up   # "retrievable from t+d onwards" is judged by the wake-up rule on timed stores
 
 # properties that (also) depend on the node automata and factory-level judges
 NODE_PROPS = {"C03", "C06", "C08", "C09", "C10", "C15", "C16", "C17", "C18", "C19", "C20"}
@@ -269,6 +271,29 @@ def stuck_item_mismatch(r, fam):
             return (hj, ops[:len(oj) + 150], len(oj) + 149, msg)
     return None
 
+def rerun_mismatch(r, fam):
+    """C19 read off a divergence, on the real code alone: the diverging history is run several times in this interpreter (with unrelated
+    objects allocated and released in between, so that the heap hands out other addresses); two runs of the same history that answer
+    differently are a concrete failing input."""
+    import simpy as _sp
+    for (j, dj) in sorted(r.div, key=lambda x: len(r.traces[x[0]][1]))[:40]:
+        hj, oj, ilj = r.traces[j]
+        runs = []
+        junk = []
+        for k in range(4):
+            try: runs.append(run_impl(hj, list(oj)))
+            except Exception as e: runs.append(["err " + type(e).__name__])
+            env = _sp.Environment()
+            junk.append([env.event() for _ in range(50 + 37 * k)])
+            if k % 2: junk.pop(0)
+        for k in range(1, len(runs)):
+            if runs[k] != runs[0]:
+                d = next((i for i, (a, b) in enumerate(zip(runs[0], runs[k])) if a != b), min(len(runs[0]), len(runs[k])))
+                msg = (f"the same history run twice on the real code in one interpreter answers differently at line {d} "
+                       f"({' '.join(map(str, oj[d])) if d < len(oj) else '?'}): '{runs[0][d] if d < len(runs[0]) else None}' vs '{runs[k][d] if d < len(runs[k]) else None}'")
+                return (hj, list(oj), min(d, len(oj) - 1), msg)
+    return None
+
 def rejected_call_mismatch(r, fam):
     """C07 read off a divergence, on the real code alone: a call that was rejected with RuntimeError must leave the store untouched, so the
     same history WITHOUT the rejected calls has to answer every other call in the same way.  The diverging histories are run again without
@@ -399,6 +424,9 @@ def check_property(pid, tier, seed):
                 except Exception: timing = None
             if not found and not timing and pid == "C03" and fam in ("slot", "cbelt"):
                 try: timing = stuck_item_mismatch(r, fam)
+                except Exception: timing = None
+            if not found and not timing and pid == "C19":
+                try: timing = rerun_mismatch(r, fam)
                 except Exception: timing = None
             if not found and not timing and pid == "C07":
                 try: timing = rejected_call_mismatch(r, fam)
